@@ -192,6 +192,10 @@ type CadenceCase struct {
 	// nothing is declared: the store starts empty (lookups allowed) and learns its only secret through
 	// a lookup a little later - which is then polled like any other
 	LookupOnly bool `json:"lookup_only,omitempty"`
+	// the context given to NewStore (documented as governing construction only) is "deadline": it
+	// carried a deadline that passes a third of an interval later, "cancel": it is cancelled as soon
+	// as NewStore has returned; "" = background
+	InitCtx string `json:"init_ctx,omitempty"`
 }
 
 func runCadence(t *testing.T, c CadenceCase) (v *h.Violation, info h.Info) {
@@ -211,10 +215,28 @@ func runCadence(t *testing.T, c CadenceCase) (v *h.Violation, info h.Info) {
 		if c.LookupOnly {
 			cfg.Secrets, cfg.AllowLookup = nil, true
 		}
-		st, err := setec.NewStore(context.Background(), cfg)
+		ictx, icancel := context.Background(), context.CancelFunc(func() {})
+		switch c.InitCtx {
+		case "deadline":
+			ictx, icancel = context.WithTimeout(ictx, interval/3)
+		case "cancel":
+			ictx, icancel = context.WithCancel(ictx)
+		}
+		defer icancel()
+		st, err := setec.NewStore(ictx, cfg)
 		if err != nil {
 			v = h.V("harness", "NewStore: %v", err)
 			return
+		}
+		if c.InitCtx == "cancel" {
+			icancel()
+		}
+		if c.InitCtx != "" {
+			defer func() {
+				if v == nil {
+					info.Class("construction-context-ended-after-newstore-returned")
+				}
+			}()
 		}
 		if c.LookupOnly {
 			time.Sleep(interval / 7)
@@ -271,7 +293,8 @@ var c11cadence = &h.Campaign[CadenceCase]{
 	Quick: 300, Thorough: 100000,
 	Gen: func(rt *rapid.T) CadenceCase {
 		return CadenceCase{IntervalMs: rapid.OneOf(rapid.IntRange(20, 5000), rapid.IntRange(5000, 10800000)).Draw(rt, "interval"), Polls: rapid.IntRange(2, 8).Draw(rt, "polls"),
-			SlowPct: rapid.SampledFrom([]int{0, 0, 20, 35, 60}).Draw(rt, "slowpct"), LookupOnly: rapid.IntRange(0, 3).Draw(rt, "lookuponly") == 0}
+			SlowPct: rapid.SampledFrom([]int{0, 0, 20, 35, 60}).Draw(rt, "slowpct"), LookupOnly: rapid.IntRange(0, 3).Draw(rt, "lookuponly") == 0,
+			InitCtx: rapid.SampledFrom([]string{"", "", "deadline", "cancel"}).Draw(rt, "initctx")}
 	},
 	Run: runCadence,
 }
